@@ -18,6 +18,9 @@ CHECKS = {
  "C18": dict(cat="model_checking", ref="§3 C18",
    text="All sequences of lifecycle operations of both sides (query, Send, End, injected error report, clock tick) within an event budget, interleaved with every FIFO delivery order, from plaintext and from sessions with history, under several policy sets; a lock-step reference checks the legal IsEncrypted transitions and their triggers, the exact security events per transition, refusal of Send after the peer's disconnect, and a transmission ledger built by opening every emitted data message.",
    tech="explicit-state model checking of the implementation against a lock-step lifecycle/ledger reference model"),
+ "C14": dict(cat="model_checking", ref="§3 C14",
+   text="(a) Exhaustive grid: chosen message lengths (incl. > 65535 bytes) × every fragment size 0..65535 × both header formats; pieces are checked for size, parsed and reassembled by an independent implementation of the fragment format and fed to a real receiver which must process exactly the original, exactly once, at the last piece. (b) Complete state-graph search over an alphabet of next/restart/wrong-total/illegal-index/non-numeric/garbage/foreign-instance fragments and whole messages (error-message payloads and real data messages), the implementation compared at every step with the specification's reassembler.",
+   tech="explicit-state model checking against the specification's reassembler + exhaustive bounded enumeration of (length, size) pairs"),
 }
 NA_REASON = "check not built yet (work in progress; see DESIGN.md §3 for the planned bounded exploration)"
 def main():
